@@ -39,7 +39,7 @@ PROFILES: List[Tuple[str, float, Dict[str, Any]]] = [
     ('multi',     1, dict(reexport=0.7, multi_reexport=True, roots=(1, 3))),
     ('zope',      1, dict(reexport=0.3, zope=1.0, roots=(1, 2))),
     ('docassign', 1, dict(reexport=0.3, docassign=0.7, roots=(1, 2))),
-    ('dups',      1, dict(reexport=0.4, dup=0.5, roots=(1, 2))),
+    ('dups',      1, dict(reexport=0.4, dup=0.5, dup_mixed=True, roots=(1, 2))),
     ('shadow',    2, dict(reexport=0.7, shadow_import=0.7, rebind_same=0.4, roots=(1, 3), consumer_roots=True)),
     ('attrs',     4, dict(reexport=0.4, attr_pool=0.9, method_pool=True, defs=(2, 4), roots=(1, 2), nested=0.0, star=0.05)),
 ]
